@@ -29,7 +29,7 @@ ASSUMPTIONS = [
     "a peer FIN is not a write fault; a write into a transport the client is closing is one: sends are not placed at the very instant the FIN is delivered, and a message accepted while a close is still in progress (slow close under flow control) is not judged here",
     "messages whose lifetime ends within 0.1 s of the next connection are not judged (C02/C16 cover expiry)",
 ]
-PROBES = ["c01.unencodable_in_front", "c01.accepted_while_closing", "c01.accepted_while_down", "c01.same_instant_sends", "c01.packet_id_wrapped", "c01.outage", "c01.stall", "c01.send_at_establish"]
+PROBES = ["c01.write_swallowed_by_closing_transport", "c01.unencodable_in_front", "c01.accepted_while_closing", "c01.accepted_while_down", "c01.same_instant_sends", "c01.packet_id_wrapped", "c01.outage", "c01.stall", "c01.send_at_establish"]
 
 
 def budget(tier: str) -> int:
@@ -228,8 +228,9 @@ def judge(w: World, sc: dict, *, socket_level: bool = True):
             lo = s["seq_call"] if s["seq_call"] is not None else -1
             hi = c0["seq_ret"] if c0 is not None and c0["seq_ret"] is not None else 10**12
             if any(e[2] == "tx.dropped" and lo < e[0] < hi for e in w.trace.events):
-                if s["tx"]:
-                    order.append((s["tx"][0]["seq"], s["seq_call"], s["id"]))
+                # (a write fault also takes the message out of the order comparison: the property promises acceptance order
+                # where "no write fault occurs", and a message that is owed a retry goes to the head of the queue)
+                probes["c01.write_swallowed_by_closing_transport"] = 1
                 continue
         if ta in est_times:
             probes["c01.send_at_establish"] = 1
